@@ -47,7 +47,7 @@ Definition ident_spec_ok (c : qcfg * list Z * bool * bytes) : bool :=
 Definition check_ident_spec := mismatches ident_spec_ok.
 
 (* ---- numbers ---- *)
-From V Require Import C01.Num C01.SpecNumeric.
+From V Require Import C01.Num C01.SpecNumeric C01.NumProofs C01.NumProofs2.
 
 (* printNonNegativeFloat: (minifyWhitespace, float64 bits, FormatFloat text, Go bytes, Go flag) *)
 Definition number_ok (c : bool * Z * bytes * bytes * bool) : bool :=
@@ -65,6 +65,7 @@ Definition number_spec_ok (c : bool * Z * bytes * bytes * bool) : bool :=
   | Some a, Some b =>
       (dec_eqb a b || match float_int bits with Some v => dec_eqb a (v, 0) | None => false end)
       && Bool.eqb gflag (forallb dig gb)
+      && float_text_b s       (* the text strconv produced has the shape the value theorem assumes *)
   | _, _ => false
   end.
 Definition check_number_spec := mismatches number_spec_ok.
